@@ -195,6 +195,13 @@ def run(tier, regenerate=True):
         for n in range(1, max_n + 1):
             for ops in itertools.product(op_choices(), repeat=n):
                 shapes.append((arch, ops))
+    if tier == "quick":
+        # a slice of the three-operation histories: two documents are indexed, then any operation (counters that
+        # only go wrong when two documents share a folder, a tag or a kind need two adds first)
+        for second in (("add", 0, 1), ("add", 1, 0)):
+            for third in op_choices():
+                shapes.append((None, (("add", 0, 0), second, third)))
+        chk.bounds["three_operation_slice"] = "add(0,0); add(other document); any operation"
     only = os.environ.get("VERIF_ONLY")
     if only:
         shapes = shapes[:int(only)]
